@@ -219,6 +219,8 @@ func propC14(p *Prog, r *Report) {
 	c14ReturnsAccumulated(p, r, "C14.b")
 	r.Rule("C14.f", "delete lists are owned by their consumer: a list returned by the core is allocated by the call (make / nil / literal grown by append) and is neither taken from nor kept in a field of the use case")
 	c14FreshLists(p, r, "C14.f")
+	r.Rule("C14.h", "a collector pass examines every key: in core.DeleteOld every iteration over the store's keys walks the versions before the horizon")
+	c14CollectorVisitsEveryKey(p, r, "C14.h")
 	r.Rule("C14.g", "the cleaner attempts every file of a list: in DeleteFiles every iteration of the loop over the list reaches deleteFile and nothing leaves the loop early")
 	c14VisitsEveryFile(p, r, "C14.g")
 	r.Rule("C14.e", "per-iteration capture: no function literal handed on inside a loop (a background job) captures a variable declared outside the loop and reassigned in it")
